@@ -400,7 +400,7 @@ int main(int argc, char** argv)
 
     if (!cx.opt.replay.empty())
     {
-        const OpDef* d = cx.opt.replay.size() > 1 ? find_op(cx.opt.replay[0], type_from_name(cx.opt.replay[1])) : nullptr;
+        const OpDef* d = cx.opt.replay.size() > 1 ? find_op(cx.opt.replay[0], type_from_name(cx.opt.replay[1]), cx.opt.prop) : nullptr;
         if (!d)
         {
             fprintf(stderr, "unknown op\n");
